@@ -102,6 +102,7 @@ type runOpts struct {
 	// CancelAt >= 0: the context shared by the pooled stages is cancelled before the CancelAt-th gate is opened
 	// (serial mode) or when the trace has CancelAt events (free mode); -1: never.
 	CancelAt int
+	NoDelay  bool // free mode without any operator delay (unshaped stress)
 	Slot     string
 }
 
@@ -119,6 +120,8 @@ type caseRun struct {
 	parkedG      map[int]int64 // goroutine of each parked operator
 	gOwner       map[int64]int // pool goroutine -> async stage whose task runs on it (-1: the goroutine that called pipeline.Execute)
 	mainEnd      bool
+	hEnteredCh   map[int]chan struct{}
+	hEnteredDone map[int]bool
 	ctx          context.Context
 	cancel       context.CancelFunc
 	cancelled    bool
@@ -289,6 +292,12 @@ func (h *hStage) Execute(node stage.PlanNode, completeHandle func(), errHandle f
 		c.mu.Lock()
 		c.recLocked(evHEnter, id, 0, err, kind, g)
 		c.hstack[g] = append(c.hstack[g], id)
+		if !c.hEnteredDone[id] {
+			c.hEnteredDone[id] = true
+			if ch := c.hEnteredCh[id]; ch != nil {
+				close(ch)
+			}
+		}
 		c.mu.Unlock()
 		ok := false
 		defer func() {
@@ -331,6 +340,21 @@ func (h *hStage) NextStages() []stage.Stage {
 }
 
 // ---------------------------------------------------------------------------------------------
+
+// handlerEntered returns a channel that is closed when the pipeline's completion/error handler of the stage was entered.
+func (c *caseRun) handlerEntered(id int) chan struct{} {
+	c.mu.Lock()
+	defer c.mu.Unlock()
+	ch := c.hEnteredCh[id]
+	if ch == nil {
+		ch = make(chan struct{})
+		c.hEnteredCh[id] = ch
+		if c.hEnteredDone[id] {
+			close(ch)
+		}
+	}
+	return ch
+}
 
 func (c *caseRun) poolIndex(s *stageSpec) int {
 	return c.depthOf(s.ID) % len(c.pools)
@@ -413,6 +437,17 @@ func (c *caseRun) build(s *stageSpec, depth int) stage.Stage {
 	}
 	onComplete := func() {
 		c.rec(evHook, id, 0, nil, "")
+		if c.opts.Mode == "free" {
+			if w := s.HookWaitStage; w > 0 {
+				select {
+				case <-c.handlerEntered(w - 1):
+				case <-time.After(100 * time.Millisecond): // never part of a verdict: the shape just did not form
+				}
+			}
+			if s.HookDelayUs > 0 {
+				time.Sleep(time.Duration(s.HookDelayUs) * time.Microsecond)
+			}
+		}
 		if s.CompletePanic {
 			c.rec(evHookPanic, id, 0, nil, "")
 			panic(fmt.Sprintf("c19-fail-s%d-complete", id))
@@ -472,7 +507,7 @@ func runCaseOnce(spec *treeSpec, opts runOpts) *caseOutcome {
 	c := &caseRun{
 		spec: spec, opts: opts, notify: make(chan struct{}, 1),
 		parked: map[int]chan struct{}{}, parkedG: map[int]int64{}, gOwner: map[int64]int{}, runDone: map[int]bool{}, hstack: map[int64][]int{},
-		delayNs: map[int]int64{}, stages: map[int]*hStage{},
+		delayNs: map[int]int64{}, stages: map[int]*hStage{}, hEnteredCh: map[int]chan struct{}{}, hEnteredDone: map[int]bool{},
 	}
 	c.ctx, c.cancel = context.WithCancel(context.Background())
 	defer c.cancel()
@@ -496,7 +531,7 @@ func runCaseOnce(spec *treeSpec, opts runOpts) *caseOutcome {
 	if opts.UseRand {
 		rnd = newRandSrc(opts.RandSeed)
 	}
-	if opts.Mode == "free" {
+	if opts.Mode == "free" && !opts.NoDelay {
 		r := newRandSrc(opts.RandSeed ^ 0x5bd1e995)
 		for _, s := range spec.stages() {
 			for i := range s.Ops {
